@@ -2,7 +2,8 @@
 """Regenerates MANIFEST.json from checks.json (one entry per claimed property)."""
 import json, os
 V = os.path.dirname(os.path.dirname(os.path.abspath(__file__)))
-checks = json.load(open(os.path.join(V, "checks.json")))
+import glob
+checks = {os.path.basename(f)[:-5]: json.load(open(f)) for f in glob.glob(os.path.join(V, "checks", "C*.json"))}
 props = [json.loads(l) for l in open(os.path.join(V, "properties.jsonl"))]
 m = {
  "version": 1,
